@@ -443,6 +443,22 @@ def directed_sets():
         b = ('ACME-DB-MIB DEFINITIONS ::= BEGIN IMPORTS OBJECT-TYPE, Integer32, enterprises FROM SNMPv2-SMI %s FROM ACME-DA-MIB;\n' % ', '.join(picked)
              + ''.join(uses[p] for p in picked) + 'END\n')
         yield 'imports ' + '+'.join(picked), {'ACME-DA-MIB': a, 'ACME-DB-MIB': b}
+    # a type and a row whose names differ in case only (SlotInfo / slotInfo: SMI keeps the two name spaces apart by the case of
+    # the first letter), imported together in either order: the type as SYNTAX, the row as AUGMENTS target
+    t = ('ACME-DT-MIB DEFINITIONS ::= BEGIN IMPORTS OBJECT-TYPE, Integer32, enterprises FROM SNMPv2-SMI TEXTUAL-CONVENTION FROM SNMPv2-TC;\n'
+         'AcmeDtRow ::= TEXTUAL-CONVENTION STATUS current DESCRIPTION "t" SYNTAX INTEGER { empty(1), card(2) }\n'
+         'acmeDtTable OBJECT-TYPE SYNTAX SEQUENCE OF AcmeDtRowEntry MAX-ACCESS not-accessible STATUS current DESCRIPTION "t" ::= { enterprises 85 }\n'
+         'acmeDtRow OBJECT-TYPE SYNTAX AcmeDtRowEntry MAX-ACCESS not-accessible STATUS current DESCRIPTION "e" INDEX { acmeDtIdx } ::= { acmeDtTable 1 }\n'
+         'AcmeDtRowEntry ::= SEQUENCE { acmeDtIdx Integer32, acmeDtWhat AcmeDtRow }\n'
+         'acmeDtIdx OBJECT-TYPE SYNTAX Integer32 (1..64) MAX-ACCESS not-accessible STATUS current DESCRIPTION "c" ::= { acmeDtRow 1 }\n'
+         'acmeDtWhat OBJECT-TYPE SYNTAX AcmeDtRow MAX-ACCESS read-only STATUS current DESCRIPTION "c" ::= { acmeDtRow 2 }\nEND\n')
+    for order in (['AcmeDtRow', 'acmeDtRow'], ['acmeDtRow', 'AcmeDtRow']):
+        u = ('ACME-DU-MIB DEFINITIONS ::= BEGIN IMPORTS OBJECT-TYPE, Integer32, enterprises FROM SNMPv2-SMI %s FROM ACME-DT-MIB;\n' % ', '.join(order)
+             + 'acmeDuTable OBJECT-TYPE SYNTAX SEQUENCE OF AcmeDuEntry MAX-ACCESS not-accessible STATUS current DESCRIPTION "t" ::= { enterprises 86 }\n'
+               'acmeDuEntry OBJECT-TYPE SYNTAX AcmeDuEntry MAX-ACCESS not-accessible STATUS current DESCRIPTION "e" AUGMENTS { acmeDtRow } ::= { acmeDuTable 1 }\n'
+               'AcmeDuEntry ::= SEQUENCE { acmeDuCol AcmeDtRow }\n'
+               'acmeDuCol OBJECT-TYPE SYNTAX AcmeDtRow MAX-ACCESS read-only STATUS current DESCRIPTION "c" ::= { acmeDuEntry 1 }\nEND\n')
+        yield 'imports ' + '+'.join(order), {'ACME-DT-MIB': t, 'ACME-DU-MIB': u}
 
 
 def run_texts(g, texts, seed):
